@@ -96,6 +96,11 @@ def build(tier, seed, per_harness=4):
     for p in range(8):
         for n in (WIDTHS_ALL if th else rnd.sample(WIDTHS_ALL, 2)):
             seqs.append((6, p, [("read_u32", (n,))]))
+    # 1b. start-code recognition at every phase (the stuffing window is widest at phase 1); quick: the two extreme phases
+    for p in (range(8) if th else (0, 1)):
+        seqs.append((6, p, [("start_code", ())]))
+    for p in (range(8) if th else (rnd.randrange(8),)):
+        seqs.append((6, p, [("start_code_resync", ())]))
     # 2. one step from every buffer fill level: prefix x phase x every symbol
     steps = [(pre, p, s) for pre in PREFIXES for p in range(8) for s in SYMS]
     steps = rnd.sample(steps, len(steps) // 2 if th else 28)
